@@ -275,6 +275,106 @@ def h_selftest_independent_draws(ctx: Ctx, cfg):
     ctx.require(a == b, "selftest-draws-can-differ")
 
 
+# ------------------------------------------------------------------------------- engine B
+def smt_random_float(cfg):
+    """random_float of each source: interpreted from the current source into z3 Int/Real terms
+    (float arithmetic as exact reals); claim: min <= result <= max whenever min <= max"""
+    import time
+
+    import z3
+
+    from vf.engine.py2smt import Interp
+
+    kind = cfg["kind"]
+    lo, hi = z3.Real("min"), z3.Real("max")
+    pre = [lo <= hi]
+    it = Interp()
+    if kind == "native":
+        r = z3.Real("r")
+        pre += [r >= 0, r < 1]
+
+        class _R:
+            def random(self):
+                return r
+
+            random._py2smt_native = True
+
+        obj = S.NativeRandomSource.__new__(S.NativeRandomSource)
+        obj.random = _R()
+        fn = S.NativeRandomSource.random_float
+    else:
+        n = cfg.get("genes", 2)
+        genes = [z3.Int(f"g{i}") for i in range(n)]
+        pre += [g >= 0 for g in genes]
+        if kind == "ge":
+            obj, fn = GE.ListWrapper(list(genes)), GE.ListWrapper.random_float
+        elif kind == "sge":
+            obj, fn = SGE.StructuredListWrapper({SGE.INFRASTRUCTURE_KEY: list(genes)}), SGE.StructuredListWrapper.random_float
+        else:
+            obj, fn = STACK.ListWrapper(list(genes)), STACK.ListWrapper.random_float
+            k = z3.Int("k")
+            pre += [k >= 1]
+            it.pow_stub = lambda b, e: k  # contract of pow on integers b >= 1, e >= 1: an integer >= 1
+    outs = it.run(fn, [lo, hi], self_obj=obj)
+    t0 = time.time()
+    nq = 0
+    for pc, res in outs:
+        s_ = z3.Solver()
+        s_.set("timeout", 60000)
+        s_.add(*pre, *pc, z3.Or(res < lo, res > hi))
+        r_ = str(s_.check())
+        nq += 1
+        if r_ == "sat":
+            m = s_.model()
+            return {"verdict": "refuted", "clause": "random_float-out-of-bounds", "model": {"kind": kind, "min": str(m.eval(lo, True)), "max": str(m.eval(hi, True)), "model": str(m)[:300]}, "queries": nq, "unsat": nq - 1, "sat": 1, "unknown": 0, "solver_s": round(time.time() - t0, 2), "encoded": fn.__qualname__}
+        if r_ != "unsat":
+            return {"verdict": "inconclusive", "message": "z3: " + r_, "queries": nq, "solver_s": round(time.time() - t0, 2)}
+    # translator validation on concrete inputs
+    import random as _r
+
+    rng = _r.Random(0)
+    val = 0
+    if kind != "native":
+        for _ in range(50):
+            gs = [rng.choice([0, 1, 2, 7, 10**6, rng.randint(0, 10**9)]) for _ in range(cfg.get("genes", 2))]
+            a = rng.choice([-3.0, 0.0, 1.5])
+            b = a + rng.choice([0.0, 0.5, 10.0])
+            real_obj = {"ge": lambda: GE.ListWrapper(list(gs)), "sge": lambda: SGE.StructuredListWrapper({SGE.INFRASTRUCTURE_KEY: list(gs)}), "stack": lambda: STACK.ListWrapper(list(gs))}[kind]()
+            v = real_obj.random_float(a, b)
+            if not (a <= v <= b):
+                return {"verdict": "harness_error", "message": f"real function out of bounds on concrete input {gs} {a} {b}: {v}"}
+            val += 1
+    return {"verdict": "confirmed", "queries": nq, "unsat": nq, "sat": 0, "unknown": 0, "solver_s": round(time.time() - t0, 2), "validated": val, "encoded": fn.__qualname__ + " (current source; floats as exact reals)"}
+
+
+def smt_replay_random_float(cfg, model):
+    from fractions import Fraction
+
+    a, b = float(Fraction(model["min"])), float(Fraction(model["max"]))
+    kind = model["kind"]
+    bad = None
+    import itertools
+
+    for gs in itertools.product([0, 1, 2, 3, 10, 10**6], repeat=cfg.get("genes", 2)):
+        if kind == "native":
+            break
+        obj = {"ge": lambda: GE.ListWrapper(list(gs)), "sge": lambda: SGE.StructuredListWrapper({SGE.INFRASTRUCTURE_KEY: list(gs)}), "stack": lambda: STACK.ListWrapper(list(gs))}[kind]()
+        v = obj.random_float(a, b)
+        if not (a <= v <= b):
+            bad = {"genes": list(gs), "min": a, "max": b, "value": v}
+            break
+    if kind == "native":
+        for seed in range(200):
+            v = S.NativeRandomSource(seed).random_float(a, b)
+            if not (a <= v <= b):
+                bad = {"seed": seed, "min": a, "max": b, "value": v}
+                break
+    return {"ok": bad is None, "clause": None if bad is None else "random_float-out-of-bounds", "detail": bad}
+
+
+SMT = {"random_float": smt_random_float}
+SMT_REPLAY = {"random_float": smt_replay_random_float}
+
 HARNESSES = {f.__name__[2:]: f for f in list(globals().values()) if callable(f) and getattr(f, "__name__", "").startswith("h_")}
 
 
@@ -299,6 +399,8 @@ def obligations(tier: str):
         obs.append(Ob("wrapper_randint", {"kind": kind, "genes": 4 if T else 3, "calls": 4 if T else 3}, name=f"wrapper_randint_{kind}", timeout=300 if T else 90))
         for prim in ("choice", "shuffle", "pop_random", "random_bool", "choice_weighted"):
             obs.append(Ob("wrapper_prims", {"kind": kind, "prim": prim, "genes": 3 if T else 2, "n": 4 if T else 3, "warmup": 1}, name=f"wrapper_{prim}_{kind}", timeout=600 if T else 100))
+    for kind in ("native", "ge", "sge", "stack"):
+        obs.append(Ob("random_float", {"kind": kind, "genes": 2}, name=f"engineB_random_float_{kind}", kind="smt", timeout=200, twin=False, smoke=0))
     for d in ("MaxDepthDecider", "FullDecider", "PositionIndependentGrowDecider", "ProgressivelyTerminalDecider", "dsge"):
         obs.append(Ob("decider_random_int", {"decider": d}, name=f"decider_random_int_{d}", timeout=300 if T else 90))
     return obs
